@@ -8,6 +8,11 @@ Common line syntax (words separated by blanks):
   define <name> <E> | define <name> -         (`-` = a body that is not an expression)
   error | other | bad | ifdef-noname          (bad = a directive rejected when reached; ifdef-noname = #ifdef/#ifndef without a name)
   include <q|a> <name> | include_next <name> | once                    (only in `incl`)
+  includem <T>… | include_nextm <T>…       (only in `incl`) #include / #include_next whose operand starts with an identifier;
+                                            T = <S|I|O><0|1><text>: string literal (text between the quotes) / identifier / other
+                                            token, has_space flag, spelling
+  definet <name> <T>…                       (only in `incl`) object-like macro whose body is the given tokens (usable as an
+                                            #include operand; not an #if expression)
 
 `drv_c10 cond`:  lines of one translation unit, then `end`  →  one output line
      model=<R> spec=<R> region=<0|1> undef=<0|1>
@@ -17,16 +22,19 @@ Common line syntax (words separated by blanks):
   R = ok:<markers joined by ,>:<defined names, sorted, joined by ,>  |  err:<diag>
 
 `drv_c10 incl`:  `sys <dir>`*, `opt D <name> <E|->` | `opt U <name>` | `opt I <dir>` | `opt after <dir>` | `opt include <file>` (command-line order),
-     `file <path>` followed by that file's lines, …, `main <path>`, `fuel <n>`, then `end`  →  one output line
+     `file <path>` followed by that file's lines, …, `main <path>`, [`limit <n>`], then `end`  →  one output line
      model=<R> plain=<R> region=<0|1> undef=<0|1>
-  model = runMain with the include-guard shortcut, plain = the same machine without it (textual inclusion).
+  model = IncludeDepth.includeRun (the total include machine, nesting limit = Gen.includeDepthLimit unless `limit` is given)
+  with the include-guard shortcut, plain = the same machine without it (textual inclusion).  No step budget (`fuel <n>` is
+  accepted and ignored).  R may also be  err:nested-too-deeply@<file>:<line>.
 -/
 import ChibiVerif.Model.PPExpr
 import ChibiVerif.Model.IncludeSearch
+import ChibiVerif.Model.IncludeDepth
 import ChibiVerif.Spec.CondInclSpec
 
 namespace ChibiVerif.Driver.C10
-open ChibiVerif.CondIncl ChibiVerif.PPExpr ChibiVerif.IncludeSearch
+open ChibiVerif.CondIncl ChibiVerif.PPExpr ChibiVerif.IncludeSearch ChibiVerif.IncludeDepth ChibiVerif.IncludeOperand
 
 abbrev L := Line Expr Body
 abbrev IL := ILine Expr Body
@@ -95,6 +103,62 @@ def readLine (ws : List String) : Option IL :=
   | ["once"] => some .pragmaOnce
   | _ => none
 
+/-- macro bodies of the include driver: the #if view (`Body`) and, for `definet`, the tokens -/
+structure DBody where
+  e : Body
+  toks : Option (List OTok) := none
+
+abbrev XL := XLine Expr DBody
+
+def liftPlain : Plain Body → Plain DBody
+  | .text t => .text t
+  | .define n b => .define n ⟨b, none⟩
+  | .undef n x => .undef n x
+  | .error => .error
+  | .bad => .bad
+  | .other => .other
+
+def liftLine : Line Expr Body → Line Expr DBody
+  | .plain p => .plain (liftPlain p)
+  | .opens h => .opens h
+  | .part h => .part h
+  | .endif x => .endif x
+
+def liftILine : ILine Expr Body → ILine Expr DBody
+  | .c l => .c (liftLine l)
+  | .incl dq n => .incl dq n
+  | .includeNext n => .includeNext n
+  | .pragmaOnce => .pragmaOnce
+
+def readOTok (w : String) : Option OTok :=
+  match w.toList with
+  | k :: sp :: txt =>
+    let kind? : Option OKind := if k == 'S' then some .str else if k == 'I' then some .ident else if k == 'O' then some .other else none
+    kind?.map (fun kd => { kind := kd, text := String.ofList txt, hasSpace := sp == '1' })
+  | _ => none
+
+def readOToks (ws : List String) : Option (List OTok) := ws.mapM readOTok
+
+def readXLine (ws : List String) : Option XL :=
+  match ws with
+  | "includem" :: ts => (readOToks ts).map (.inclMacro false)
+  | "include_nextm" :: ts => (readOToks ts).map (.inclMacro true)
+  | "definet" :: n :: ts => (readOToks ts).map (fun b => .base (.c (.plain (.define n ⟨none, some b⟩))))
+  | _ => (readLine ws).map (fun l => .base (liftILine l))
+
+/-- the file system the driver runs the model in: the table of generated files (paths normalised the way the kernel
+    resolves `.`, `..` and empty components), and `open`/`stat` fail with ENAMETOOLONG for a path of PATH_MAX = 4096
+    bytes or more (reached by `#include __FILE__`, whose path roughly doubles with every level) -/
+def osFS (files : List (String × List XL)) : XFS Expr DBody :=
+  fun p => if p.utf8ByteSize ≥ 4096 then none else XFS.ofTableNorm files p
+
+/-- the #if view of the driver's macro table -/
+def bodies (d : Defs DBody) : Defs Body := d.map (fun p => (p.1, p.2.e))
+
+/-- the expander of #include operands: object-like macros given by `definet`, and `__FILE__` -/
+def xpD : Xp DBody := fun d file ts =>
+  expandObjT (("__FILE__", [{ kind := .str, text := file }]) :: d.filterMap (fun p => p.2.toks.map (fun b => (p.1, b)))) ts
+
 def showDiag : Diag → String
   | .strayElif => "stray-elif" | .strayElse => "stray-else" | .strayEndif => "stray-endif"
   | .unterminated => "unterminated" | .errorDirective => "error-directive" | .badExpr => "bad-expr"
@@ -110,6 +174,17 @@ def showRes (r : Except Diag (Obs Body)) : String :=
   | .ok o =>
     let names := (o.defs.map (·.1)).foldl (fun acc n => insertSorted n acc) []
     "ok:" ++ ",".intercalate (o.out.map (" ".intercalate ·)) ++ ":" ++ ",".intercalate names
+
+def showResD (r : Except IDiag (Obs Body)) : String :=
+  match r with
+  | .error (.diag d) => "err:" ++ showDiag d
+  | .error (.nestedTooDeeply f l) => s!"err:nested-too-deeply@{f}:{l}"
+  | .ok o => showRes (.ok o)
+
+def isErrD (r : Except IDiag (Obs Body)) (d : Diag) : Bool :=
+  match r with
+  | .error (.diag e) => e == d
+  | _ => false
 
 /-- evaluator that turns "an evaluated condition lies in the region of the known finding" into the
     marker diagnostic `badDirective` -/
@@ -132,13 +207,13 @@ def isErr (r : Except Diag (Obs Body)) (d : Diag) : Bool :=
 def b01 (b : Bool) : String := if b then "1" else "0"
 
 structure Acc where
-  cur : List IL := []                        -- lines of the file being read (reversed)
+  cur : List XL := []                        -- lines of the file being read (reversed)
   curName : Option String := none
-  files : List (String × List IL) := []
+  files : List (String × List XL) := []
   sys : List String := []
-  opts : List (Opt Body) := []
+  opts : List (Opt DBody) := []
   main : String := ""
-  fuel : Nat := 200000
+  limit : Nat := ChibiVerif.Gen.C10Incl.includeDepthLimit
   bad : Bool := false
 
 def Acc.flush (a : Acc) : Acc :=
@@ -170,13 +245,15 @@ partial def condLoop (h : IO.FS.Stream) (acc : List L) (bad : Bool) : IO UInt32 
     | _ => condLoop h acc true
 
 def inclOut (a : Acc) : String :=
-  let run (evf : Expr → Defs Body → Except Diag Bool) (g : Bool) :=
-    runMain evf (FS.ofTableNorm a.files) a.sys [] a.opts a.main g a.fuel
+  let run (evf : Expr → Defs Body → Except Diag Bool) (g : Bool) : Except IDiag (Obs Body) :=
+    match includeRun (fun e d => evf e (bodies d)) xpD (osFS a.files) a.sys [] a.opts a.main g a.limit with
+    | .error e => .error e
+    | .ok o => .ok ⟨bodies o.defs, o.out⟩
   let model := run evC true
   let plain := run evC false
-  let region := isErr (run evRegion true) .badDirective
-  let undef := isErr (run evUndef true) .outOfFuel
-  s!"model={showRes model} plain={showRes plain} region={b01 region} undef={b01 undef}"
+  let region := isErrD (run evRegion true) .badDirective
+  let undef := isErrD (run evUndef true) .outOfFuel
+  s!"model={showResD model} plain={showResD plain} region={b01 region} undef={b01 undef}"
 
 partial def inclLoop (h : IO.FS.Stream) (a : Acc) : IO UInt32 := do
   let line ← h.getLine
@@ -189,18 +266,19 @@ partial def inclLoop (h : IO.FS.Stream) (a : Acc) : IO UInt32 := do
     inclLoop h {}
   | ["sys", d] => inclLoop h { a with sys := a.sys ++ [d] }
   | ["main", p] => inclLoop h { a.flush with main := p }
-  | ["fuel", n] => inclLoop h { a with fuel := n.toNat?.getD a.fuel }
+  | ["fuel", _] => inclLoop h a
+  | ["limit", n] => inclLoop h { a with limit := n.toNat?.getD a.limit }
   | ["file", p] => inclLoop h { a.flush with curName := some p }
   | "opt" :: "D" :: n :: b =>
     match readBody b with
-    | some x => inclLoop h { a with opts := a.opts ++ [.D n x] }
+    | some x => inclLoop h { a with opts := a.opts ++ [.D n ⟨x, none⟩] }
     | none => inclLoop h { a with bad := true }
   | ["opt", "U", n] => inclLoop h { a with opts := a.opts ++ [.U n] }
   | ["opt", "I", d] => inclLoop h { a with opts := a.opts ++ [.I d] }
   | ["opt", "after", d] => inclLoop h { a with opts := a.opts ++ [.idirafter d] }
   | ["opt", "include", f] => inclLoop h { a with opts := a.opts ++ [.inc f] }
   | ws =>
-    match readLine ws with
+    match readXLine ws with
     | some l => inclLoop h { a with cur := l :: a.cur }
     | none => inclLoop h { a with bad := true }
 
